@@ -601,6 +601,8 @@ func (h *harness) faultRestart(c faultCase) {
 			site = "frac/disk_blocks_producer.go:getTokensBlocksGenerator"
 		case "token-table":
 			site = "frac/disk_blocks_producer.go:getTokenTableBlocksGenerator"
+		case "registry":
+			site = "disk/blocks_writer.go:WriteBlocksRegistry"
 		}
 		class := "write-error-swallowed-index-published"
 		if !published {
@@ -620,14 +622,19 @@ func (h *harness) faultSweep(skip, keep bool, n int, seed int64) {
 	clean := sealIndexWithFault(e, 0, false)
 	clean.idx.Close()
 	plan, ok := planOf(clean)
-	if clean.err != nil || !ok {
-		h.chFault.Error = fmt.Sprintf("fault-free run does not have the modelled shape: err=%v marks=%v calls=%d", clean.err, clean.marks, clean.calls)
+	if clean.err != nil {
+		h.chFault.Error = fmt.Sprintf("fault-free run of writeSealedFraction failed: %v", clean.err)
 		return
 	}
 	total := clean.calls
 	h.rep.Note("fault sweep skip=%v n=%d: %d calls on the index output, plan %s", skip, n, total, planStr(plan))
 	var swallowed []faultCase
 	perSection := map[string]int{}
+	if !ok {
+		// the call sequence no longer has the modelled shape (info 2, positions 2, registry 4 calls): the correspondence
+		// is reported as broken, the property itself is still checked on every k below
+		h.chFault.Error = fmt.Sprintf("the fault-free run does not have the modelled shape: marks=%v calls=%d", clean.marks, clean.calls)
+	}
 	for _, persistent := range []bool{false, true} {
 		for k := 0; k <= total+1; k++ {
 			r := sealIndexWithFault(e, k, persistent)
@@ -641,9 +648,11 @@ func (h *harness) faultSweep(skip, keep bool, n int, seed int64) {
 			if k == 0 || k > total {
 				sec = "none"
 			}
-			h.chFault.Add(fmt.Sprintf("writeidx src %s %s", planStr(plan), oracleBits(k, persistent, total)),
-				fmt.Sprintf("ok %s calls=%d failed=%s", res, r.calls, vh.B(r.fired)),
-				r.fired, "section="+sec, "persistent="+vh.B(persistent), "result="+res, "swallowed="+vh.B(lost))
+			if ok {
+				h.chFault.Add(fmt.Sprintf("writeidx src %s %s", planStr(plan), oracleBits(k, persistent, total)),
+					fmt.Sprintf("ok %s calls=%d failed=%s", res, r.calls, vh.B(r.fired)),
+					r.fired, "section="+sec, "persistent="+vh.B(persistent), "result="+res, "swallowed="+vh.B(lost))
+			}
 			c := faultCase{skip, keep, n, seed, k, persistent}
 			if lost && (h.o.Thorough() || perSection[sec] < 2) { // quick tier: two restarts per section are enough to exhibit a dropped error
 				perSection[sec]++
@@ -656,6 +665,9 @@ func (h *harness) faultSweep(skip, keep bool, n int, seed int64) {
 	cases = append(cases, swallowed...)
 	step := h.o.Pick(5, 1)
 	for k := 0; k <= total; k += step {
+		cases = append(cases, faultCase{skip, keep, n, seed, k, false})
+	}
+	for k := max(1, total-5); k <= total; k++ { // every call of the registry block and of the header that is written last
 		cases = append(cases, faultCase{skip, keep, n, seed, k, false})
 	}
 	if h.o.Thorough() {
